@@ -214,6 +214,40 @@ def run(F, rep, tier):
             rep.ok('R2.5', fn, 'arguments by value, forwarded to the builtin as is')
         else:
             rep.viol('R2.5', fn + '|by-value', '%s clones or borrows its arguments on the builtin fast path (by value %s, clones %d)' % (fn, byval, len(clones)), b.loc(0))
+    # ---------------- R2.8
+    rep.rule('R2.8', 'the element a for loop hands to its body is owned by the loop: evaluate_for iterates with the draining iterators '
+             '(mut_obj_into_iter / mut_obj_into_iter_pairs), never with a cloning iterator that leaves the source as a co-owner of every row; '
+             'and every sequence arm of Append::run2 / Prepend::run2 mutates its own payload through Rc::make_mut (no detour through `++`, '
+             'which only extends its left operand in place)')
+    efb8 = F.body('eval::evaluate_for') if F.has_fn('eval::evaluate_for') else None
+    if efb8 is None:
+        rep.error('R2.8', 'evaluate_for missing')
+    else:
+        srcs = [c for c in family_calls(F, 'eval::evaluate_for', depth=1) if re.search(r'(mut_obj_into_iter(_pairs)?|obj_to_cloning_iter|cloning_iter|obj_clone_iter)$', c.target)]
+        bad8 = [c for c in srcs if 'clon' in c.target.rsplit('::', 1)[-1]]
+        if bad8:
+            rep.viol('R2.8', 'eval::evaluate_for|cloning-iterator', 'a for loop iterates over a copy-sharing iterator (%s): every row stays co-owned by the iterated collection, so the first mutation of the loop variable copies the row' % bad8[0].target.rsplit('::', 1)[-1], bad8[0].loc())
+        elif len(srcs) >= 2:
+            rep.ok('R2.8', 'evaluate_for', 'draining iterators (%d site(s))' % len(srcs))
+        else:
+            rep.note('R2.8: evaluate_for obtains its elements in an unrecognised way: not decided')
+    for ty8 in ('Append', 'Prepend'):
+        fn8 = '<%s as core::Builtin>::run2' % ty8
+        if not F.has_fn(fn8):
+            continue
+        b8 = F.body(fn8)
+        for m8 in F.matches.get(fn8, []):
+            if m8['kind'] != 'Normal':
+                continue
+            for i8, a8 in enumerate(m8['arms']):
+                kinds = [p_.rsplit('::', 1)[-1] for p_ in pat_paths(a8['pat']) if p_.startswith('core::Seq::')]
+                if not kinds or kinds[0] not in ('List', 'Vector', 'Bytes'):
+                    continue
+                regn = arm_region(F, b8, m8, i8)
+                if any(c.target.rsplit('::', 1)[-1] == 'make_mut' for c in b8.calls_in(regn)):
+                    rep.ok('R2.8', '%s Seq::%s' % (fn8, kinds[0]), 'make_mut in the arm')
+                else:
+                    rep.viol('R2.8', '%s|%s|no-make_mut' % (fn8, kinds[0]), 'the %s arm of %s no longer mutates its payload through Rc::make_mut: the uniquely owned collection is rebuilt on every call (O(n) per element)' % (kinds[0], fn8), b8.loc(min(regn)) if regn else None)
     # ---------------- R2.7
     rep.rule('R2.7', 'the walkers descend into the stored element, not into a copy of it: set_index / modify_existing_index / '
              'modify_every_existing_index never clone an Obj fetched from the container they are modifying (HashMap get / get_mut, indexing, '
